@@ -2,6 +2,7 @@ import RModel.Driver.Util
 import RModel.Impl.Repr
 import RModel.Impl.BSI
 import RModel.Impl.Iter
+import RModel.Impl.Iter2
 /-! Checker state and verdict helpers shared by all command families. -/
 namespace RModel.Driver
 open RModel
@@ -25,6 +26,13 @@ inductive L2It where
   | many (it : RModel.Impl.It.ManyIt)
   deriving Inhabited
 
+/-- L2 shadow of a roaring64 iterator created by `l2it64`: the modelled Go state machine (Impl/Iter2.lean) -/
+inductive L2It64 where
+  | fwd (it : RModel.Impl.It.IntIt64)
+  | rev (it : RModel.Impl.It.IntRevIt64)
+  | many (it : RModel.Impl.It.ManyIt64)
+  deriving Inhabited
+
 structure St where
   bm : Std.HashMap String BSet := {}          -- 32-bit bitmaps
   bm64 : Std.HashMap String BSet := {}        -- 64-bit bitmaps
@@ -35,6 +43,8 @@ structure St where
   bsiL2 : Std.HashMap String (RModel.BSI × Bool) := {}    -- plane-level model of roaring64 BSIs (index, fixed-width?)
   zb : Std.HashMap String (String × BSet × Bool) := {}  -- protected caller-owned buffers: (kind, encoded set, alive)
   l2it : Std.HashMap String L2It := {}        -- L2 iterator state machines running next to `it` (names created by `l2it`)
+  l2uit : Std.HashMap String RModel.Impl.It.UnsetIt := {}   -- L2 unset iterators (names created by `l2it unset`)
+  l2it64 : Std.HashMap String L2It64 := {}    -- L2 roaring64 iterators running next to `it64` (names created by `l2it64`)
   deriving Inhabited
 
 /-- result of checking a line: `none` = agrees -/
